@@ -131,6 +131,15 @@ Theorem C07_costly_complete : forall fdest aos x rs,
 Proof. exact merge_costly_complete. Qed.
 Print Assumptions C07_costly_complete.
 
+(* a token slot whose value has f+1 agreeing reporters and no rival at the threshold is delivered with that value *)
+Theorem C07_token_slot_complete : forall thr c s i aos t,
+  (0 < thr)%N ->
+  (thr <= N.of_nat (length (supporters tok_eqb (tok_at c s i) t aos)))%N ->
+  (forall t', (thr <= N.of_nat (length (supporters tok_eqb (tok_at c s i) t' aos)))%N -> t' = t) ->
+  tok_slot thr c s aos i = t.
+Proof. exact tok_slot_consensus. Qed.
+Print Assumptions C07_token_slot_complete.
+
 (* Token data is NOT non-blocking (F13e, recorded): one oracle claiming one more token slot for a message makes the
    merged token data of that message not ready, although the extra slot has a single reporter. *)
 Theorem C07_token_non_blocking_refuted :
